@@ -1548,7 +1548,7 @@ def run(ctx: Ctx):
                 ctx.sample({"spec": case.ph(case.fields), "cfg": case.ph(case.cfg), "mutations": len(muts)})
             done += 1
         check_argv_model(ctx, pending, stats)         # one more for the command lines
-        if ctx.elapsed() > ctx.budget(70, 660) and c0 + chunk < len(cases):
+        if ctx.elapsed() > ctx.budget(58, 660) and c0 + chunk < len(cases):
             ctx.extra["stopped_early_after_cases"] = done
             break
 
